@@ -13,7 +13,8 @@ and Russian JCUKEN legends (both shift states), every key one unit wide, left ed
 
 Two different keys are adjacent when they are side by side in one row (|dx| = 1) or in neighbouring rows and their
 spans overlap (|dx| < 1).  Coordinates are kept in quarter key widths (integers).  The same tables are written down
-a second time in coq/theories/KbdGeometry.v (phys_qwerty / phys_jcuken); `coq_cases` lets Coq evaluate its copy on
+a second time in coq/theories/KbdGeometry.v (phys_qwerty / phys_jcuken; KbdGeometryProofs.v relates them to the layouts of the
+source); `coq_cases` lets Coq evaluate its copy on
 strings this module judged.
 
 The relation CONTAINS every adjacency the unchanged code accepts (`compare_with_code`: exhaustive over all ordered
